@@ -58,7 +58,7 @@ func waitFor(cond func() bool, d time.Duration) bool {
 
 func init() {
 	checks["C15"] = func(rep *Report, tier string, seed int64) {
-		rep.Rule = "for each stack configuration (L1-only and L1/L2, pass-through and chunked handlers, with and without the locking wrapper, main and batch port) and each representative request stream (every command alone, pipelines, quiet batches closed by get / noop, a quit followed by more requests) in text and binary: for every prefix length of the stream (quick: 0, 1, every length up to 30, then a seeded sample; thorough: every length) a client sends the prefix and goes away; observed: the bytes the server still sends (compared with the Lean model run on the same prefix, together with both backend traces and lock logs), that the server closes the connection, that the fake backends' open-connection counts return to their baseline (the handlers' sockets are closed), that the goroutine count returns to its baseline, and that a new connection is accepted and can use the same keys at once (no key is left locked); distinct = distinct (configuration, stream, prefix length)"
+		rep.Rule = "for each stack configuration (L1-only and L1/L2, pass-through and chunked handlers, with and without the locking wrapper, main and batch port) and each representative request stream (every command alone, pipelines, quiet batches closed by get / noop, a quit followed by more requests) in text and binary: for every prefix length of the stream (quick: 0, 1, every length up to 30, then a seeded sample; thorough: every length) a client sends the prefix and goes away; observed: the bytes the server still sends (compared with the Lean model run on the same prefix, together with both backend traces and lock logs), that the server closes the connection, that the fake backends' open-connection counts return to their baseline (the handlers' sockets are closed), that the goroutine count returns to its baseline, and that a new connection is accepted and can use the same keys at once (no key is left locked); plus, per configuration, protocol and port, a client that pipelines 400 gets / multi-key gets / get-and-touches of 2300-byte values and disconnects without reading (the server's reply writes fail inside a command), judged by the same observations without the model; distinct = distinct (configuration, stream, prefix length)"
 		d := StartDriver()
 		defer d.Close()
 		r := rand.New(rand.NewSource(seed*389 + 15))
@@ -113,7 +113,14 @@ func init() {
 				ports = append(ports, "batch")
 			}
 			for _, proto := range []string{"bin", "text"} {
-				for name, cmds := range streamsFor(proto) {
+				streams := streamsFor(proto)
+				var streamNames []string
+				for name := range streams {
+					streamNames = append(streamNames, name)
+				}
+				sortStrings(streamNames)
+				for _, name := range streamNames {
+					cmds := streams[name]
 					var stream []byte
 					for _, c := range cmds {
 						stream = append(stream, c.Encode(proto)...)
@@ -222,7 +229,7 @@ func init() {
 						} else {
 							rep.Validated++
 						}
-						if len(rep.Divergences) > 5 {
+						if enoughDivergences(rep, 5) {
 							rep.Distinct = len(distinct)
 							return
 						}
@@ -232,6 +239,76 @@ func init() {
 							_, e := nc.Feed(c.Encode("bin"), 2*time.Second)
 							if e != "eof" {
 								fail("blocked-after-disconnect:"+c.Kind, fmt.Sprintf("a new connection's %s ended in %q", c.Describe(), e))
+								break
+							}
+						}
+						nc.Close()
+					}
+				}
+				// the client vanishes WITHOUT reading: it pipelines requests with large replies and
+				// closes at once, so the server's writes fail in the middle of a command (the model has
+				// no failing client writes: these runs are judged by the property's own observations)
+				for _, port := range ports {
+					noread := map[string]Command{
+						"get":      {Kind: "get", Keys: []GetKey{{Key: k, Opaque: 8}}},
+						"multiget": {Kind: "get", Keys: []GetKey{{Key: k, Opaque: 9, Quiet: proto == "bin"}, {Key: k2, Opaque: 10, Quiet: proto == "bin"}, {Key: k, Opaque: 11}}},
+					}
+					if proto == "bin" {
+						noread["gat"] = Command{Kind: "gat", Key: k, Exptime: 200, Opaque: 20}
+					}
+					for _, name := range []string{"get", "multiget", "gat"} {
+						c, have := noread[name]
+						if !have {
+							continue
+						}
+						st.Reset()
+						setup := st.Dial("main", "bin")
+						for _, key := range [][]byte{k, k2} {
+							setup.Feed(Command{Kind: "set", Key: key, Flags: 9, Data: big, Opaque: 30}.Encode("bin"), 2*time.Second)
+						}
+						setup.Close()
+						waitFor(func() bool { return st.L1.OpenConns() == 0 && st.L2.OpenConns() == 0 }, time.Second)
+						st.TakeLockLog()
+						var stream []byte
+						for i := 0; i < 400; i++ {
+							stream = append(stream, c.Encode(proto)...)
+						}
+						path := st.MainSock
+						if port == "batch" {
+							path = st.BatchSock
+						}
+						conn, err := net.Dial("unix", path)
+						must(err)
+						conn.Write(stream)
+						conn.Close()
+						// (the server may not even have accepted the connection yet)
+						waitFor(func() bool { return st.L1.OpenConns() > 0 }, time.Second)
+						tag := fmt.Sprintf("%d/%s/%s/noread-%s", ci, proto, port, name)
+						rep.Evaluations++
+						rep.Validated++
+						distinct[tag] = true
+						rep.Distribution["stream:noread-"+name]++
+						fail := func(sig, what string) {
+							rep.Violations = append(rep.Violations, Violation{What: fmt.Sprintf("%s, %s on the %s port: a client sends 400 x %q and disconnects without reading a reply: %s", cfg, proto, port, c.Describe(), what),
+								Signature: sig, Replay: map[string]interface{}{"stack": cfg.String(), "proto": proto, "port": port, "command": c.Describe(), "repeated": 400, "client": "writes everything, closes, reads nothing"}})
+						}
+						if !waitFor(func() bool { return st.L1.OpenConns() == 0 && st.L2.OpenConns() == 0 }, 5*time.Second) {
+							fail("backend-conn-leak", fmt.Sprintf("backend connections left open: L1 %d, L2 %d", st.L1.OpenConns(), st.L2.OpenConns()))
+						}
+						if !waitFor(func() bool { return runtime.NumGoroutine() <= baseG }, 3*time.Second) {
+							fail("goroutine-leak", fmt.Sprintf("%d goroutines, %d before the connection", runtime.NumGoroutine(), baseG))
+							baseG = runtime.NumGoroutine()
+						}
+						st.L1.TakeLog()
+						st.L2.TakeLog()
+						if msg := pairedLocks(st.TakeLockLog()); msg != "" {
+							fail("locks-unpaired-on-disconnect", msg)
+						}
+						nc := st.Dial("main", "bin")
+						for _, c2 := range []Command{{Kind: "set", Key: k, Data: []byte("next"), Opaque: 40}, {Kind: "get", Keys: []GetKey{{Key: k, Opaque: 41, Quiet: true}, {Key: k2, Opaque: 42}}}, {Kind: "delete", Key: k2, Opaque: 43}} {
+							_, e := nc.Feed(c2.Encode("bin"), 2*time.Second)
+							if e != "eof" {
+								fail("blocked-after-disconnect:"+c2.Kind, fmt.Sprintf("a new connection's %s ended in %q", c2.Describe(), e))
 								break
 							}
 						}
